@@ -601,8 +601,8 @@ class StreamResultRouter(StreamResult):
         policy_method(self, sink, **policy_args)
         if do_start_stop_run:
             self._sinks.append(sink)
-        if self._in_run:
-            sink.startTestRun()
+            if self._in_run:
+                sink.startTestRun()
 
     def _map_route_code_prefix(self, sink, route_prefix, consume_route=False):
         if "/" in route_prefix:
